@@ -39,6 +39,7 @@ mod t6r;
 mod t6r2;
 mod t6w2;
 mod t6w3;
+mod t6r3;
 
 const FEATURES: &[&str] = &["aes-crypto", "bzip2", "deflate", "time", "zstd"];
 
@@ -3940,6 +3941,7 @@ fn main() {
                     "tfn" => t6w2::translate_tfn(&reg, &failed, &all, name),
                     "gfn" => t6w3::translate_gfn(&reg, &failed, &all, name),
                     "afn" => t6w2::translate_afn(&reg, &failed, &all, name),
+                    "hfn" => t6r3::translate_hfn(&reg, &failed, &all, name),
                     "struct" | "sstruct" => {
                         for it in &all {
                             if let Item::Struct(st) = it {
